@@ -192,6 +192,7 @@ func GetTemplateSize(version uint16, template []Field) int {
 	sum := 0
 	for _, templateField := range template {
 		if templateField.Length == 0xffff {
+			sum += 1 // a variable-length value occupies at least its length prefix
 			continue
 		}
 		sum += int(templateField.Length)
@@ -244,6 +245,9 @@ func DecodeOptionsDataSet(version uint16, payload *bytes.Buffer, listFieldsScope
 
 	listFieldsScopesSize := GetTemplateSize(version, listFieldsScopes)
 	listFieldsOptionSize := GetTemplateSize(version, listFieldsOption)
+	if listFieldsScopesSize+listFieldsOptionSize == 0 {
+		return records, nil // records that occupy no bytes cannot be cut out of the set
+	}
 
 	for payload.Len() >= listFieldsScopesSize+listFieldsOptionSize {
 		scopeValues, err := DecodeDataSetUsingFields(version, payload, listFieldsScopes)
@@ -269,6 +273,9 @@ func DecodeDataSet(version uint16, payload *bytes.Buffer, listFields []Field) ([
 	var records []DataRecord
 
 	listFieldsSize := GetTemplateSize(version, listFields)
+	if listFieldsSize == 0 {
+		return records, nil // records that occupy no bytes cannot be cut out of the set
+	}
 	for payload.Len() >= listFieldsSize {
 		values, err := DecodeDataSetUsingFields(version, payload, listFields)
 		if err != nil {
